@@ -6,6 +6,7 @@ from pathlib import Path
 
 ROOT = Path(__file__).resolve().parent.parent
 sys.path.insert(0, str(ROOT))
+sys.path.insert(0, str(ROOT / ".deps"))
 
 CHECKS = {
     # id: (technique, level text, level note, design ref)
@@ -34,6 +35,36 @@ CHECKS = {
             "private helper cirkit.backend.torch.compiler._fold_parameters.",
             "DESIGN.md section 4 C14"),
 }
+
+def _op(pid, what, oracle, bounds):
+    return (f"Hypothesis PBT: generated operator pipelines ({what}); differential against {oracle}",
+            f"Exploration: every generated case applies the operator through cirkit.symbolic.functional, compiles the "
+            f"result under a drawn semiring/fold/optimize setting and compares it with {oracle}, computed from the "
+            f"OPERAND circuits only; {bounds}.",
+            "Trusted: vlib/ref.py (numpy interpreter), vlib/ops.py (definitions of the operators on functions: "
+            "brute-force sums, trapezoid quadrature, exact polynomial differentiation), vlib/tol.py tolerance model.",
+            f"DESIGN.md section 4 {pid}")
+
+
+CHECKS.update({
+    "C03": _op("C03", "integrate over drawn Z, nested Z1/Z2, of products, of conditioned circuits",
+               "brute-force sums / quadrature of the numpy reference of the operand",
+               "bounded by <= 5 variables, <= 3 categories, joint grid over Z <= 120000 points"),
+    "C04": _op("C04", "c1*c2, c*c, (c1*c2)*c3, evidence*evidence, c1*conj(c2) on skeleton-sharing circuits",
+               "the product of the numpy references of the operands (output (i,j), Kronecker unit order)",
+               "bounded by <= 4 variables, <= 3 units per operand layer, sum arity <= 2 per region"),
+    "C05": _op("C05", "differentiate(c, k), differentiate(c1*c2, k) on polynomial-input circuits with renumbered variables",
+               "exact polynomial derivatives of the numpy reference laid out in increasing variable-id order, plus "
+               "autograd of the compiled operand for k = 1",
+               "bounded by <= 5 variables, degree <= 3, order <= 3"),
+    "C06": _op("C06", "evidence with partial/complete observations, evidence then integrate/evidence, concatenate",
+               "the numpy reference of the operand on inputs with the observed columns overwritten / the stacked "
+               "operand outputs",
+               "bounded by <= 5 variables, <= 3 operands"),
+    "C07": _op("C07", "conj(c), conj(conj(c)), conj(c1*c2), integrate(conj(c)), conj(c1)*c2 with real and complex parameters",
+               "the complex conjugate of the numpy reference of the operand",
+               "bounded by <= 5 variables, <= 3 units"),
+})
 
 NOT_APPLICABLE = {}
 
